@@ -232,6 +232,9 @@ def spell_rhs(e):
     return '[' + spell_expr(e) + ']'
 
 
+_CALL_KINDS = {}
+
+
 def spell_stmts(ss, ind):
     return ''.join(spell_stmt(s, ind) for s in ss)
 
@@ -256,7 +259,15 @@ def spell_stmt(s, ind=1):
     if t == 'hook':
         return I + s['n'] + '();\n'
     if t == 'call':
-        return I + s['n'] + '(' + ', '.join(s['args']) + ');\n'
+        kinds = s.get('_kinds') or _CALL_KINDS.get(s['n'])
+        argv = s.get('argv') or []
+        if kinds is None:
+            kinds = ['expr'] * len(argv)
+        sp = []
+        for i, a in enumerate(argv):
+            k = kinds[i] if i < len(kinds) else 'expr'
+            sp.append(a if isinstance(a, str) else spell_call_arg(k, a))
+        return I + s['n'] + '(' + ', '.join(sp) + ');\n'
     if t == 'finish':
         return I + ('finish %s;\n' % s['code'] if s['code'] else 'finish;\n')
     if t == 'yield':
@@ -334,7 +345,13 @@ def spell_program(p):
         out += 'finishcode ' + ', '.join(p['fcodes']) + ';\n'
     if p['ycodes']:
         out += 'yieldcode ' + ', '.join(p['ycodes']) + ';\n'
+    _CALL_KINDS.clear()
     for m in p.get('macros', []):
+        _CALL_KINDS[m['name']] = [k for k, n in m['params']]
+    for m in p.get('macros', []):
+        for k, n in m['params']:
+            if k == 'macro':
+                _CALL_KINDS.setdefault(n, [])
         out += 'macro %s(%s) {\n' % (m['name'], ', '.join('%s %s' % (k, n) for k, n in m['params'])) + spell_stmts(m['b'], 1) + '}\n'
     out += 'parser {\n' + spell_stmts(p['body'], 1) + '}\n'
     return out
@@ -1147,8 +1164,13 @@ def gen_expr_program(seed, wide=False):
             return {'k': 'bin', 'op': r.choice(['&&', '||']), 'l': cond(d - 1), 'r': cond(d - 1)}
         if d > 0 and k < 0.45:
             return {'k': 'not', 'e': cond(d - 1)}
-        if k < 0.55:
+        if k < 0.53:
             return {'k': 'var', 'name': 'b'}
+        if k < 0.75:
+            # boundary-friendly comparison (operands that are easily equal), often negated
+            c = {'k': 'bin', 'op': r.choice(['==', '!=', '<', '>', '<=', '>=']), 'l': {'k': 'var', 'name': r.choice(names)},
+                 'r': r.choice([{'k': 'num', 'v': r.choice([0, 1, 2, 3, 7, 100])}, {'k': 'var', 'name': r.choice(names)}, {'k': 'len', 'name': 's'}])}
+            return {'k': 'not', 'e': c} if r.random() < 0.5 else c
         return {'k': 'bin', 'op': r.choice(['==', '!=', '<', '>', '<=', '>=']), 'l': arith(1), 'r': arith(1)}
 
     load = []
@@ -1184,3 +1206,182 @@ def gen_expr_program(seed, wide=False):
     body += [{'t': 'hook', 'n': 'h'}, {'t': 'match', 'm': {'k': 'str', 'bytes': [33]}}]
     p = _mk(outs, ['h'], [], [], body)
     return p, spell_program(p)
+
+
+# ---------------------------------------------------------------------------
+def _subst_expr(e, env):
+    if isinstance(e, dict):
+        if e.get('k') == 'arg':
+            return env[e['name']]['expr']
+        if e.get('k') in ('var', 'len', 'idx') and e.get('name') in env and env[e['name']]['kind'] == 'out':
+            e = dict(e, name=env[e['name']]['name'])
+        return {k: _subst_expr(v, env) for k, v in e.items()}
+    if isinstance(e, list):
+        return [_subst_expr(v, env) for v in e]
+    return e
+
+
+def _subst_match(m, env):
+    if m['k'] == 'arg':
+        return env[m['name']]['match']
+    if m['k'] == 'cat':
+        return {'k': 'cat', 'ms': [_subst_match(x, env) for x in m['ms']]}
+    return m
+
+
+def inline_macros(prog):
+    """the textual expansion of a macro program (own implementation: every call replaced by the body with arguments substituted)"""
+    macros = {m['name']: m for m in prog['macros']}
+
+    def name_of(n, env, kind):
+        if n in env and env[n]['kind'] == kind:
+            return env[n]['name']
+        return n
+
+    def expand(ss, env):
+        out = []
+        for s in ss:
+            t = s['t']
+            if t == 'call':
+                target = s['n']
+                if target in env and env[target]['kind'] == 'macro':
+                    target = env[target]['name']
+                if target in macros:
+                    m = macros[target]
+                    new_env = {}
+                    for (kind, pname), arg in zip(m['params'], s['argv']):
+                        if kind == 'match':
+                            new_env[pname] = {'kind': 'match', 'match': _subst_match(arg, env)}
+                        elif kind == 'expr':
+                            new_env[pname] = {'kind': 'expr', 'expr': _subst_expr(arg, env)}
+                        else:
+                            nm = arg
+                            if nm in env and env[nm]['kind'] == kind:
+                                nm = env[nm]['name']
+                            new_env[pname] = {'kind': kind, 'name': nm}
+                    out.extend(expand(m['b'], new_env))
+                else:
+                    out.append({'t': 'hook', 'n': name_of(target, env, 'hook')})
+            elif t == 'hook':
+                n = s['n']
+                if n in env and env[n]['kind'] == 'hook':
+                    out.append({'t': 'hook', 'n': env[n]['name']})
+                elif n in env and env[n]['kind'] == 'macro':
+                    out.extend(expand([{'t': 'call', 'n': n, 'argv': []}], env))
+                else:
+                    out.append(s)
+            elif t in ('match', 'wait'):
+                out.append(dict(s, m=_subst_match(s['m'], env)))
+            elif t == 'append':
+                out.append(dict(s, var=name_of(s['var'], env, 'out'), m=_subst_match(s['m'], env)))
+            elif t in ('set', 'appendc'):
+                out.append(dict(s, var=name_of(s['var'], env, 'out'), e=_subst_expr(s['e'], env)))
+            elif t in ('setstr', 'delete'):
+                out.append(dict(s, var=name_of(s['var'], env, 'out')))
+            elif t == 'finish':
+                out.append(dict(s, code=name_of(s['code'], env, 'finishcode') if s['code'] else s['code']))
+            elif t == 'yield':
+                out.append(dict(s, code=name_of(s['code'], env, 'yieldcode')))
+            elif t == 'break':
+                out.append(dict(s, loop=name_of(s['loop'], env, 'loop') if s.get('loop') else None))
+            elif t == 'loop':
+                out.append(dict(s, b=expand(s['b'], env)))
+            elif t == 'opt':
+                out.append(dict(s, b=expand(s['b'], env)))
+            elif t == 'try':
+                out.append(dict(s, b=expand(s['b'], env), h=expand(s['h'], env)))
+            elif t == 'foreach':
+                out.append(dict(s, b=expand(s['b'], env), acts=expand(s['acts'], env)))
+            elif t == 'if':
+                out.append(dict(s, br=[{'c': _subst_expr(b['c'], env), 'b': expand(b['b'], env)} for b in s['br']],
+                                els=expand(s['els'], env) if s.get('els') is not None else None))
+            elif t == 'case':
+                out.append(dict(s, cl=[dict(c, ps=[p if p == 'else' else _subst_match(p, env) for p in c['ps']], b=expand(c['b'], env)) for c in s['cl']]))
+            else:
+                out.append(s)
+        return out
+    p2 = dict(prog, macros=[], body=expand(prog['body'], {}))
+    return p2
+
+
+def spell_call_arg(kind, arg):
+    if kind == 'match':
+        return spell_match(arg)
+    if kind == 'expr':
+        return spell_rhs(arg)
+    return arg
+
+
+def gen_macro_program(seed, bad=None):
+    """C13: a program using macros (nested calls, every argument kind) and, from the same AST, its hand-inlined twin.
+    bad: None | 'arity' | 'kind'  - deliberately ill-formed call (must be diagnosed)"""
+    r = random.Random(seed)
+    A = list(b'abcd')
+    outs = [{'name': 'n', 'type': 'int', 'signed': None, 'width': None, 'default': 0}, {'name': 'k', 'type': 'int', 'signed': None, 'width': 2, 'default': 1},
+            {'name': 's', 'type': 'str', 'size': 4, 'term': True, 'default': None},
+            {'name': 'a', 'type': 'int', 'signed': None, 'width': None, 'default': 0}, {'name': 'b', 'type': 'int', 'signed': None, 'width': None, 'default': 0},
+            {'name': 'e', 'type': 'enum', 'values': ['EA', 'EB', 'EC'], 'default': None}]
+    hooks = ['h0', 'h1']
+    fcodes = ['F0', 'F1']
+    lit = lambda: {'k': 'str', 'bytes': [r.choice(A) for _ in range(r.randint(1, 2))]}
+    # m_put(out a, out b, expr x, expr y): a = x; b = y;      (parameter names coincide with output names: swap-style calls)
+    m_put = {'name': 'm_put', 'params': [('out', 'a'), ('out', 'b'), ('expr', 'x'), ('expr', 'y')],
+             'b': [{'t': 'set', 'var': 'a', 'e': {'k': 'arg', 'name': 'x'}}, {'t': 'set', 'var': 'b', 'e': {'k': 'arg', 'name': 'y'}}]}
+    # m_two(hook first, hook second): first(); second();
+    m_two = {'name': 'm_two', 'params': [('hook', 'first'), ('hook', 'second')], 'b': [{'t': 'hook', 'n': 'first'}, {'t': 'hook', 'n': 'second'}]}
+    # m_on(expr want, finishcode code): if e == want { finish code; }     m_mark(expr v): e = v;
+    m_on = {'name': 'm_on', 'params': [('expr', 'want'), ('finishcode', 'code')],
+            'b': [{'t': 'if', 'br': [{'c': {'k': 'bin', 'op': '==', 'l': {'k': 'var', 'name': 'e'}, 'r': {'k': 'arg', 'name': 'want'}}, 'b': [{'t': 'finish', 'code': 'code'}]}], 'els': None}]}
+    m_mark = {'name': 'm_mark', 'params': [('expr', 'v')], 'b': [{'t': 'set', 'var': 'e', 'e': {'k': 'arg', 'name': 'v'}}]}
+    # m_set(out tgt, expr val, hook hk): tgt = [tgt + val]; hk();
+    m_set = {'name': 'm_set', 'params': [('out', 'tgt'), ('expr', 'val'), ('hook', 'hk')],
+             'b': [{'t': 'set', 'var': 'tgt', 'e': {'k': 'bin', 'op': '+', 'l': {'k': 'var', 'name': 'tgt'}, 'r': {'k': 'arg', 'name': 'val'}}}, {'t': 'hook', 'n': 'hk'}]}
+    # m_read(match pat, out buf, match delim): buf += pat; delim;
+    m_read = {'name': 'm_read', 'params': [('match', 'pat'), ('out', 'buf'), ('match', 'delim')],
+              'b': [{'t': 'try', 'b': [{'t': 'append', 'var': 'buf', 'm': {'k': 'arg', 'name': 'pat'}}], 'handles': ['outofspace'], 'h': [{'t': 'delete', 'var': 'buf'}, {'t': 'wait', 'm': {'k': 'arg', 'name': 'delim'}}]},
+                    {'t': 'match', 'm': {'k': 'arg', 'name': 'delim'}}]}
+    # m_stop(loop lp, finishcode fc, expr lim): if n >= lim { break lp; }  if k > 100 { finish fc; }
+    m_stop = {'name': 'm_stop', 'params': [('loop', 'lp'), ('finishcode', 'fc'), ('expr', 'lim')],
+              'b': [{'t': 'if', 'br': [{'c': {'k': 'bin', 'op': '>=', 'l': {'k': 'var', 'name': 'n'}, 'r': {'k': 'arg', 'name': 'lim'}}, 'b': [{'t': 'break', 'loop': 'lp'}]}], 'els': None},
+                    {'t': 'if', 'br': [{'c': {'k': 'bin', 'op': '>', 'l': {'k': 'var', 'name': 'k'}, 'r': {'k': 'num', 'v': 100}}, 'b': [{'t': 'finish', 'code': 'fc'}]}], 'els': None}]}
+    # m_twice(macro inner, out cnt, hook hk2): inner(); m_set(cnt, 2, hk2);   (nested call forwarding its own parameters)
+    m_twice = {'name': 'm_twice', 'params': [('macro', 'inner'), ('out', 'cnt'), ('hook', 'hk2')],
+               'b': [{'t': 'call', 'n': 'inner', 'argv': []}, {'t': 'call', 'n': 'm_set', 'argv': ['cnt', {'k': 'num', 'v': r.choice([1, 2, 3])}, 'hk2']}]}
+    # m_ws(): optional { " "; }
+    m_ws = {'name': 'm_ws', 'params': [], 'b': [{'t': 'opt', 'b': [{'t': 'match', 'm': {'k': 'str', 'bytes': [32]}}]}]}
+    m_tab = {'name': 'm_tab', 'params': [], 'b': [{'t': 'opt', 'b': [{'t': 'match', 'm': {'k': 'str', 'bytes': [9]}}, {'t': 'hook', 'n': 'h0'}]}]}
+    macros = [m_set, m_read, m_stop, m_twice, m_ws, m_tab, m_put, m_two, m_on, m_mark]
+    d1, d2 = r.sample(A, 2)
+    loop_body = [
+        {'t': 'call', 'n': 'm_read', 'argv': [{'k': 're', 'r': {'k': 'plus', 'c': {'k': 'set', 'inv': False, 'items': [['ch', d1], ['ch', 120]]}}, 'bin': False}, 's', {'k': 'str', 'bytes': [59]}]},
+        {'t': 'call', 'n': 'm_ws', 'argv': []},
+        {'t': 'call', 'n': r.choice(['m_set', 'm_twice']), 'argv': None},
+        {'t': 'call', 'n': 'm_stop', 'argv': ['L', r.choice(fcodes), {'k': 'num', 'v': r.choice([2, 3, 4])}]},
+    ]
+    extra = []
+    if r.random() < 0.7:
+        x, y = r.sample(['a', 'b'], 2) if r.random() < 0.7 else ('a', 'b')
+        extra.append({'t': 'call', 'n': 'm_put', 'argv': [x, y, {'k': 'num', 'v': r.randint(1, 9)}, {'k': 'bin', 'op': '+', 'l': {'k': 'var', 'name': 'n'}, 'r': {'k': 'num', 'v': 10}}]})
+    if r.random() < 0.6:
+        extra.append({'t': 'call', 'n': 'm_two', 'argv': r.choice([['h0', 'h1'], ['h1', 'h0'], ['h1', 'h1']])})
+    if r.random() < 0.6:
+        extra.append({'t': 'call', 'n': 'm_mark', 'argv': [{'k': 'enum', 'name': r.choice(['EA', 'EB', 'EC'])}]})
+        extra.append({'t': 'call', 'n': 'm_on', 'argv': [{'k': 'enum', 'name': r.choice(['EA', 'EB', 'EC'])}, r.choice(fcodes)]})
+    loop_body[3:3] = extra
+    # (a loop body may not end in an optional: a mandatory separator follows the optional whitespace)
+    loop_body.insert(3, {'t': 'match', 'm': {'k': 'str', 'bytes': [58]}})
+    if loop_body[2]['n'] == 'm_set':
+        loop_body[2]['argv'] = [r.choice(['n', 'k']), r.choice([{'k': 'num', 'v': 1}, {'k': 'bin', 'op': '*', 'l': {'k': 'len', 'name': 's'}, 'r': {'k': 'num', 'v': 2}}, {'k': 'chr', 'c': 2}]), r.choice(hooks)]
+    else:
+        loop_body[2]['argv'] = ['m_tab', r.choice(['n', 'k']), r.choice(hooks)]
+    body = [{'t': 'match', 'm': lit()}, {'t': 'loop', 'name': 'L', 'b': loop_body}, {'t': 'match', 'm': {'k': 'str', 'bytes': [33]}}]
+    p = _mk(outs, hooks, fcodes, [], body)
+    p['macros'] = macros
+    twin = inline_macros(p)
+    stop = [x for x in loop_body if x.get('n') == 'm_stop'][0]
+    if bad == 'arity':
+        stop['argv'] = stop['argv'][:2]
+    elif bad == 'kind':
+        stop['argv'][1] = {'k': 'num', 'v': 5}            # a number where a finishcode is declared
+        stop['_kinds'] = ['loop', 'expr', 'expr']
+    return p, spell_program(p), twin, spell_program(twin)
